@@ -7,6 +7,8 @@ fn main() {}
 #[cfg(not(kani))]
 use sm9_kani::common::{sym, AssumeFailed};
 #[cfg(not(kani))]
+use sm9_core::verif_hooks::FieldElement;
+#[cfg(not(kani))]
 fn main() {
     let a: Vec<String> = std::env::args().collect();
     if a.len() < 2 {
@@ -18,6 +20,72 @@ fn main() {
             println!("{}", n);
         }
         return;
+    }
+    if a[1] == "--kernel" {
+        // native evaluation of one kernel on raw (stored) limbs: operands/results are 64-hex-digit integers
+        use sm9_kani::common::*;
+        let parse = |h: &String| -> [u64; 4] {
+            let v = u128::from_str_radix(&h[0..32], 16).unwrap();
+            let w = u128::from_str_radix(&h[32..64], 16).unwrap();
+            [w as u64, (w >> 64) as u64, v as u64, (v >> 64) as u64]
+        };
+        let show = |l: [u64; 4]| println!("{:016x}{:016x}{:016x}{:016x}", l[3], l[2], l[1], l[0]);
+        let o: Vec<[u64; 4]> = a[3..].iter().map(parse).collect();
+        let q = |i: usize| fq_from_raw(o[i]);
+        let r = |i: usize| fr_from_raw(o[i]);
+        match a[2].as_str() {
+            "fq_mul" => show(fq_raw(&(q(0) * q(1)))),
+            "fr_mul" => show(fr_raw(&(r(0) * r(1)))),
+            "fq_square" => show(fq_raw(&q(0).squared())),
+            "fr_square" => show(fr_raw(&r(0).squared())),
+            "fq_sop2" => show(fq_raw(&vh_fq_sop2(&[q(0), q(1)], &[q(2), q(3)]))),
+            "fq_sop4" => show(fq_raw(&vh_fq_sop4(&[q(0), q(1), q(2), q(3)], &[q(4), q(5), q(6), q(7)]))),
+            "fq_decode" => show(u256_limbs(&vh_fq_decode(&q(0)))),
+            "fr_decode" => show(u256_limbs(&vh_fr_decode(&r(0)))),
+            "fq_encode" => show(fq_raw(&vh_fq_encode(&U256::from(o[0])))),
+            "fr_encode" => show(fr_raw(&vh_fr_encode(&U256::from(o[0])))),
+            "fq_add" => show(fq_raw(&(q(0) + q(1)))),
+            "fq_sub" => show(fq_raw(&(q(0) - q(1)))),
+            "fq_neg" => show(fq_raw(&(-q(0)))),
+            "fq_double" => show(fq_raw(&q(0).double())),
+            "fq_div2" => show(fq_raw(&q(0).div2())),
+            "fr_add" => show(fr_raw(&(r(0) + r(1)))),
+            "fr_sub" => show(fr_raw(&(r(0) - r(1)))),
+            "fr_neg" => show(fr_raw(&(-r(0)))),
+            "fr_double" => show(fr_raw(&r(0).double())),
+            _ => { eprintln!("unknown kernel"); std::process::exit(4); }
+        }
+        return;
+    }
+    if a[1] == "--selftest" {
+        // harness self-test (NOT a verification claim): run every body natively on random inputs
+        let n: u64 = a.get(2).and_then(|x| x.parse().ok()).unwrap_or(200);
+        let seed: u64 = a.get(3).and_then(|x| x.parse().ok()).unwrap_or(1);
+        let only = a.get(4).cloned();
+        std::panic::set_hook(Box::new(|_| {}));
+        let mut bad = 0;
+        for (name, f) in sm9_kani::registry() {
+            if let Some(o) = &only { if !name.contains(o.as_str()) { continue; } }
+            let (mut ok, mut asm, mut viol) = (0, 0, 0);
+            let mut first = String::new();
+            for i in 0..n {
+                sym::set_random(seed.wrapping_mul(0x9E3779B97F4A7C15).wrapping_add(i * 7919 + 1));
+                match std::panic::catch_unwind(f) {
+                    Ok(()) => ok += 1,
+                    Err(e) => {
+                        if e.downcast_ref::<AssumeFailed>().is_some() { asm += 1; } else {
+                            viol += 1;
+                            if first.is_empty() {
+                                first = if let Some(s) = e.downcast_ref::<&str>() { s.to_string() } else if let Some(s) = e.downcast_ref::<String>() { s.clone() } else { String::from("panic") };
+                            }
+                        }
+                    }
+                }
+            }
+            println!("SELFTEST {:40} ok={} assume_failed={} violations={} {}", name, ok, asm, viol, first);
+            if viol > 0 { bad += 1; }
+        }
+        std::process::exit(if bad > 0 { 1 } else { 0 });
     }
     let f = match sm9_kani::registry().into_iter().find(|(n, _)| *n == a[1]) {
         Some((_, f)) => f,
